@@ -1,7 +1,7 @@
 from . import COMMON_TB, NOTE
 
 PROP = {
-    "level": "exploration",
+    "level": "proof",
     "modules": [],
     "streams": [{"name": "determ"}],
     "rule": "determ: generated (template, logical environment) pairs, 65 % of them map-heavy (string-keyed maps of 2..12 "
@@ -12,15 +12,23 @@ PROP = {
             "environment-free templates are also run through cmd/liquid built from the working tree. All results "
             "(bytes, or error kind/line/path/cause and text) must be identical. Non-trivial = renders non-empty output.",
     "trusted_base": COMMON_TB,
-    "assumptions": ["oracle only (no model yet): the Lean driver answers `unmodelled` for `determ` lines",
-                    "fresh processes are covered through the cmd/liquid runs only; the clock (date 'now') is never generated"],
+    "assumptions": ["fresh processes are covered through the cmd/liquid runs only; the clock (date 'now') is never generated"],
 }
 
 TEXT = {
-    "text": "Exploration of the real code: every variant of rendering one (source, bindings value, configuration) - repeated "
-            "renders, rebuilt maps, fresh parses, fresh engines, the six entry points, the command-line tool - must give the "
-            "same bytes or the same error; any two differing results are reported with the input.",
-    "design_ref": "DESIGN.md 6 C02",
-    "note": NOTE + "No theorem is claimed for C02 yet (level exploration).",
-    "technique": "metamorphic testing of the implementation over generated templates and permuted map constructions",
+    "text": ('In the model a render is a function of (configuration, source, start line, bindings value, file layout): repeated '
+              'renders, fresh parses and fresh engines are the same application (reparse_same), and the six API entry points '
+              'reduce to it (entrypoints_agree). The one source of nondeterminism in the real code, Go map iteration order, is '
+              'removed by sorting: sort_perm_invariant / map_order_independent prove that sorting any two permutations of the '
+              'same distinct-key entries gives the same list, for every list. Tie: every `determ` case line is answered by the '
+              'model and compared with the real engine; on the real code each case is rendered 5x on one template, with maps '
+              'rebuilt in 4 insertion orders, on fresh parses and engines, through all six entry points and through cmd/liquid, '
+              'and all results must be identical.'),
+    "design_ref": 'DESIGN.md 6 C02',
+    "note": NOTE + ("What the model cannot exhibit is Go's randomised map iteration itself: that every place where the code iterates a "
+              'map sorts first is established by the metamorphic runs (including the int-key and float-key families), not by a '
+              "theorem. The clock (date: 'now') is outside the property and never generated."),
+    "technique": ('Lean 4 proof (functional determinism of the model; permutation-invariance of the sorted map order) + '
+              'model/implementation correspondence + metamorphic runs of the implementation over permuted map constructions and '
+              'entry points'),
 }
